@@ -27,6 +27,7 @@
 package c37
 
 import (
+	"bytes"
 	"fmt"
 	"runtime"
 	"sort"
@@ -131,33 +132,73 @@ type reg struct {
 	live     bool
 }
 
-type fired struct {
-	key, id int
-}
-
+// twRun counts, per session key, the callbacks that have actually run.
 type twRun struct {
 	mu    sync.Mutex
-	fires []fired
+	count []int
+	sig   chan struct{}
+}
+
+func (r *twRun) fired(key int) {
+	r.mu.Lock()
+	r.count[key]++
+	r.mu.Unlock()
+	select {
+	case r.sig <- struct{}{}:
+	default:
+	}
+}
+
+func (r *twRun) get(key int) int {
+	r.mu.Lock()
+	defer r.mu.Unlock()
+	return r.count[key]
+}
+
+// waitCount waits until at least want callbacks of key have run. Whether a close was
+// dispatched is decided from the wheel's own state, never from this wait; a timeout here
+// only makes the case inconclusive.
+func (r *twRun) waitCount(key, want int) bool {
+	if r.get(key) >= want {
+		return true
+	}
+	deadline := time.NewTimer(60 * time.Second)
+	defer deadline.Stop()
+	for r.get(key) < want {
+		select {
+		case <-r.sig:
+		case <-time.After(5 * time.Millisecond):
+		case <-deadline.C:
+			return r.get(key) >= want
+		}
+	}
+	return true
 }
 
 func ceilDiv(a, b int) int { return (a + b - 1) / b }
 
-// waitCallbacks waits until every goroutine started by the last tick has ended.
-func waitCallbacks(baseline int) bool {
-	if runtime.NumGoroutine() <= baseline {
-		return true
-	}
-	deadline := time.Now().Add(20 * time.Second)
-	for i := 0; runtime.NumGoroutine() > baseline; i++ {
+var (
+	twDump     = make([]byte, 1<<20)
+	markTickGo = []byte("created by github.com/XiaoMi/Gaea/util.(*TimeWheel).handleTick")
+)
+
+// quiesceWheel waits until no goroutine started by handleTick (go callback()) exists any
+// more, so that callbacks nobody expects (stale or repeated closes) have been counted too.
+func quiesceWheel() bool {
+	deadline := time.Now().Add(60 * time.Second)
+	for i := 0; ; i++ {
+		n := runtime.Stack(twDump, true)
+		if !bytes.Contains(twDump[:n], markTickGo) {
+			return true
+		}
 		runtime.Gosched()
-		if i > 200 {
-			time.Sleep(50 * time.Microsecond)
-			if time.Now().After(deadline) {
-				return false
-			}
+		if i > 10 {
+			time.Sleep(200 * time.Microsecond)
+		}
+		if time.Now().After(deadline) {
+			return false
 		}
 	}
-	return true
 }
 
 func checkTW(c twCase) (o pbt.Outcome) {
@@ -174,8 +215,22 @@ func checkTW(c twCase) (o pbt.Outcome) {
 	if c.Buckets == 3600 {
 		o.Labels = append(o.Labels, "production_wheel")
 	}
-	run := &twRun{}
-	baseline := runtime.NumGoroutine()
+	run := &twRun{count: make([]int, c.Keys), sig: make(chan struct{}, 1)}
+	expect := make([]int, c.Keys) // closes the wheel has dispatched according to its own state
+	pend := make([]bool, c.Keys)  // keys registered in the wheel (VerifPending) at the last look
+	readPending := func() {
+		for k := range pend {
+			pend[k] = false
+		}
+		for _, x := range tw.VerifPending() {
+			var k int
+			if name, ok := x.(string); ok {
+				if _, err := fmt.Sscanf(name, "s%d", &k); err == nil && k >= 0 && k < c.Keys {
+					pend[k] = true
+				}
+			}
+		}
+	}
 	now := 0
 	nextID := 0
 	cur := map[int]*reg{} // live registration per key
@@ -190,46 +245,27 @@ func checkTW(c twCase) (o pbt.Outcome) {
 	}
 	keyName := func(k int) string { return fmt.Sprintf("s%d", k) }
 
+	// doTick advances the wheel by one tick. Which sessions were closed by this tick is read
+	// from the wheel's state: handleTick unregisters a key exactly when it dispatches its
+	// callback, so "registered before the tick, not registered after it" means dispatched, and
+	// a due session that is still registered was not closed. No timing is involved.
 	doTick := func() bool {
 		now++
-		run.mu.Lock()
-		before := len(run.fires) // all earlier callbacks have ended (waited below)
-		run.mu.Unlock()
+		before := append([]bool(nil), pend...)
 		if p := pbt.Catch(tw.VerifTick); p != "" {
 			fail("tick %d: runtime panic: %s", now, p)
 			return false
 		}
-		if !waitCallbacks(baseline) {
-			o.Skip = "callback goroutines did not end within 20 s"
-			return false
-		}
-		run.mu.Lock()
-		got := append([]fired(nil), run.fires[before:]...)
-		run.mu.Unlock()
-		if len(got) == 0 {
-			for k := 0; k < c.Keys; k++ {
-				if r := cur[k]; r != nil && r.live && r.due == now {
-					fail("tick %d: session %s not closed; its last activity (timeout %ds) was recorded after tick %d, so the close is due at this tick", now, keyName(r.key), r.timeoutS, r.recTick)
-				}
+		readPending()
+		for k := 0; k < c.Keys; k++ {
+			if !before[k] || pend[k] {
+				continue
 			}
-			return o.Violation == ""
-		}
-		seen := map[int]int{}
-		for _, f := range got {
-			seen[f.key]++
-		}
-		keys := make([]int, 0, len(seen))
-		for k := range seen {
-			keys = append(keys, k)
-		}
-		sort.Ints(keys)
-		for _, k := range keys {
+			// dispatched at this tick
+			expect[k]++
 			r := cur[k]
 			switch {
-			case seen[k] > 1:
-				fail("tick %d: session %s closed %d times in one tick", now, keyName(k), seen[k])
 			case r == nil || !r.live:
-				// which older registration could this be?
 				why := "it has no live registration"
 				for i := len(all) - 1; i >= 0; i-- {
 					if all[i].key == k && (all[i].due == now || all[i].floorDue == now) {
@@ -259,10 +295,24 @@ func checkTW(c twCase) (o pbt.Outcome) {
 		}
 		for k := 0; k < c.Keys; k++ {
 			if r := cur[k]; r != nil && r.live && r.due == now {
-				fail("tick %d: session %s not closed; its last activity (timeout %ds) was recorded after tick %d, so the close is due at this tick", now, keyName(k), r.timeoutS, r.recTick)
+				state := "it is still registered in the wheel"
+				if !pend[k] {
+					state = "the wheel does not know it any more"
+				}
+				fail("tick %d: session %s not closed (%s); its last activity (timeout %ds) was recorded after tick %d, so the close is due at this tick", now, keyName(k), state, r.timeoutS, r.recTick)
 			}
 		}
-		return o.Violation == ""
+		if o.Violation != "" {
+			return false
+		}
+		// the dispatched callbacks must also run: once each (counted at the end), some time
+		for k := 0; k < c.Keys; k++ {
+			if before[k] && !pend[k] && !run.waitCount(k, expect[k]) {
+				o.Skip = "a dispatched callback did not run within 60 s"
+				return false
+			}
+		}
+		return true
 	}
 
 	earliestDue := func() int {
@@ -292,15 +342,12 @@ func checkTW(c twCase) (o pbt.Outcome) {
 			}
 			cur[op.Key] = r
 			all = append(all, r)
-			id, key := r.id, r.key
-			cb := func() {
-				run.mu.Lock()
-				run.fires = append(run.fires, fired{key: key, id: id})
-				run.mu.Unlock()
-			}
+			key := r.key
+			cb := func() { run.fired(key) }
 			if p := pbt.Catch(func() { tw.VerifAdd(time.Duration(op.TimeoutS)*time.Second, keyName(op.Key), cb) }); p != "" {
 				fail("add: runtime panic: %s", p)
 			}
+			readPending()
 			switch {
 			case op.TimeoutS%c.TickS != 0:
 				lbl["timeout_not_multiple_of_tick"] = true
@@ -324,6 +371,7 @@ func checkTW(c twCase) (o pbt.Outcome) {
 			if p := pbt.Catch(func() { tw.VerifRemove(keyName(op.Key)) }); p != "" {
 				fail("remove: runtime panic: %s", p)
 			}
+			readPending()
 		case "tick":
 			for i := 0; i < op.N && i < 4000; i++ {
 				if !doTick() {
@@ -354,6 +402,21 @@ func checkTW(c twCase) (o pbt.Outcome) {
 		for now < last {
 			if !doTick() {
 				break
+			}
+		}
+	}
+	// exactly once, and never by a removed, refreshed or already closed registration: when no
+	// goroutine started by the wheel is left, every session's callbacks must have run exactly
+	// as often as the wheel's state said it dispatched a close for it (each such dispatch was
+	// judged above)
+	if o.Violation == "" && o.Skip == "" {
+		if !quiesceWheel() {
+			o.Skip = "goroutines started by handleTick did not end within 60 s"
+		} else {
+			for k := 0; k < c.Keys; k++ {
+				if got := run.get(k); got != expect[k] {
+					fail("after %d ticks: the close callback of session %s ran %d times, but the wheel unregistered it for a close %d times: a close was dispatched by a removed, refreshed or already closed registration, or more than once", now, keyName(k), got, expect[k])
+				}
 			}
 		}
 	}
